@@ -4,7 +4,9 @@ entry of ``_CLEANUP_FUNCS`` is wrapped from the outside: the wrapper appends a r
 calls the ORIGINAL clean-up function (real deletion, relative to the current directory) and records
 how it ended.  Nothing in /repo is edited.
 
-argv: <read fd> <log path> [pending=INT,TERM]
+argv: <read fd> <log path> [pending=INT,TERM] [faults=<json {name: k}>]
+   faults=...: transient clean-up faults inside THIS (tracker) process: os.unlink raises PermissionError on the
+   first k attempts for the given path name, then works (what joblib's unlink_file retry loop exists for).
    pending=...: the driver started this process with SIGINT/SIGTERM blocked (as ensure_running does) and
    sent the named signals right after the spawn; main() is entered only once they are pending, so
    "a signal arrived while the tracker was starting" is a fact, not a matter of timing.
@@ -40,11 +42,27 @@ def _wrap(rtype, func):
 
 
 # same keys, same order, same functions -- only observed
+for _a in sys.argv[3:]:
+    if _a.startswith("faults="):
+        import json as _json
+        _left = dict(_json.loads(_a[7:]))
+        _real_unlink = os.unlink
+
+        def _unlink(path, *a, **k):
+            name = os.fsdecode(os.fspath(path))
+            if not a and not k and _left.get(name, 0) > 0:
+                _left[name] -= 1
+                os.write(log_fd, ("F\t%s\n" % _hex(name)).encode())
+                raise PermissionError(13, "Permission denied (injected)", name)
+            return _real_unlink(path, *a, **k)
+
+        os.unlink = _unlink
 rt._CLEANUP_FUNCS = {k: _wrap(k, v) for k, v in rt._CLEANUP_FUNCS.items()}
-if len(sys.argv) > 3 and sys.argv[3].startswith("pending="):
+_pend = [a for a in sys.argv[3:] if a.startswith("pending=")]
+if _pend:
     import signal
     import time
-    want = {getattr(signal, "SIG" + n) for n in sys.argv[3][8:].split(",") if n}
+    want = {getattr(signal, "SIG" + n) for n in _pend[0][8:].split(",") if n}
     t0 = time.time()
     while not want <= signal.sigpending() and time.time() - t0 < 20:
         time.sleep(0.001)
